@@ -232,9 +232,9 @@ def lean_val(v) -> str:
         return f'.coll .{v[1]} [{items}]'
     if tag == 'fd':
         ov = lambda o: f'.{o}' if isinstance(o, str) else f'(.other {o[1]})'   # noqa: E731
-        return f'.fdict {ov(v[1])} {ov(v[2])} {v[3]} {b(v[4])}'
+        return f'.fdict {ov(v[1])} {ov(v[2])} {v[3]} {b(v[4])} {b(v[5])}'
     if tag == 'd':
-        return f'.dict {v[1]}'
+        return f'.dict {v[1]} {b(v[2])}'
     if tag == 'o':
         return f'.obj {v[1]}'
     raise ExtractError(f'cannot print {v!r}')
